@@ -72,11 +72,31 @@ func (c *ctx) drawGraph() (refmodel.Adj, string) {
 		if n >= 4 && g.Chance(1, 25) {
 			// two mega hubs: adjacency lists of a thousand-plus entries (parallel edges
 			// by the hundred) into an overlapping but different set of targets
+			// half of the time the targets are turned into sinks first, so that each
+			// hub is a component of its own with a thousand-plus raw out-edges into
+			// components that are already finished (otherwise the hubs usually pull
+			// the whole graph into one component)
+			sinks := g.Chance(1, 2)
+			if sinks {
+				for v := 0; v < n; v += 2 {
+					adj[v] = nil
+				}
+				c.probe("graph_with_two_mega_hubs_over_sinks")
+			}
 			for h := 0; h < 2; h++ {
 				u := g.Intn(n)
+				if sinks {
+					u |= 1 // an odd node: not a sink
+					if u >= n {
+						u = 1
+					}
+				}
 				miss := g.Intn(n) // a target this hub does not have
 				for k := g.Range(1030, 2600); k > 0; k-- {
 					v := g.Intn(n)
+					if sinks {
+						v &^= 1
+					}
 					if v == miss {
 						continue
 					}
